@@ -23,8 +23,17 @@ func main() {
 		only    = flag.Int("only", -1, "worker: run just this case")
 		journal = flag.String("journal", "", "worker: journal path")
 		replay  = flag.String("replay", "", "replay file")
+		aux     = flag.String("aux", "", "run an auxiliary child-process function")
 	)
 	flag.Parse()
+	if *aux != "" {
+		f := checks.Aux[*aux]
+		if f == nil {
+			fmt.Fprintf(os.Stderr, "unknown aux %q\n", *aux)
+			os.Exit(9)
+		}
+		os.Exit(f(flag.Args()))
+	}
 	c := checks.Registry[*id]
 	if c == nil {
 		fmt.Fprintf(os.Stderr, "unknown check %q\n", *id)
